@@ -39,7 +39,7 @@ import (
 	"strings"
 )
 
-const version = "vinstr-7"
+const version = "vinstr-9"
 
 var (
 	repo    = flag.String("repo", "/repo", "repository root")
@@ -67,6 +67,10 @@ func main() {
 	flag.Parse()
 	if *out == "" {
 		fatal(2, "vinstr: -out required")
+	}
+	*out, _ = filepath.Abs(*out)
+	if *extra != "" {
+		*extra, _ = filepath.Abs(*extra)
 	}
 	pkgs := []pkgJob{
 		{dir: filepath.Join(*repo, "varlink/internal/ctxio"), path: "github.com/varlink/go/varlink/internal/ctxio"},
@@ -150,6 +154,7 @@ type rw struct {
 	tmp         int
 	prepass     bool
 	recvAllowed map[*ast.UnaryExpr]bool
+	curFunc     string
 }
 
 func instrumentPackage(fset *token.FileSet, imp types.Importer, pj pkgJob, overlay map[string]string) {
@@ -189,7 +194,11 @@ func instrumentPackage(fset *token.FileSet, imp types.Importer, pj pkgJob, overl
 		r := &rw{fset: fset, info: info, pkg: pkg, file: af, fname: filepath.Base(pj.files[i]), written: written}
 		for _, d := range af.Decls {
 			if fd, ok := d.(*ast.FuncDecl); ok && fd.Body != nil {
+				r.curFunc = fd.Name.Name
 				fd.Body.List = r.stmts(fd.Body.List)
+				if pkg.Name() == "varlink" && fd.Recv == nil && fd.Name.Name == "listen" {
+					r.listenHook(fd)
+				}
 			}
 		}
 		changedImport := false
@@ -237,6 +246,28 @@ func instrumentPackage(fset *token.FileSet, imp types.Importer, pj pkgJob, overl
 	os.WriteFile(filepath.Join(*out, "tracked-"+pkg.Name()+".txt"), []byte(strings.Join(wl, "\n")+"\n"), 0o644)
 }
 
+// listenHook makes the package's listen(ctx, network, address) consult vsched.ListenHook first, so that
+// Service.Listen / Bind can be driven onto a controlled listener while running the tree's own code.
+func (r *rw) listenHook(fd *ast.FuncDecl) {
+	var names []string
+	for _, f := range fd.Type.Params.List {
+		for _, n := range f.Names {
+			names = append(names, n.Name)
+		}
+	}
+	if len(names) != 3 || fd.Type.Results == nil || len(fd.Type.Results.List) != 2 {
+		return
+	}
+	src := "func() { if vsched.ListenHook != nil { vxl, vxerr := vsched.ListenHook(" + names[1] + ", " + names[2] + "); if vxl == nil { return nil, vxerr }; return vxl.(net.Listener), vxerr } }"
+	e, err := parser.ParseExpr(src)
+	if err != nil {
+		fatal(2, "vinstr: listen hook: %v", err)
+	}
+	pro := e.(*ast.FuncLit).Body.List
+	fd.Body.List = append(pro, fd.Body.List...)
+	r.used = true
+}
+
 func addImport(af *ast.File, name, path string) {
 	spec := &ast.ImportSpec{Name: ast.NewIdent(name), Path: &ast.BasicLit{Kind: token.STRING, Value: strconv.Quote(path)}}
 	gd := &ast.GenDecl{Tok: token.IMPORT, Specs: []ast.Spec{spec}}
@@ -247,7 +278,7 @@ func addImport(af *ast.File, name, path string) {
 // ---------------------------------------------------------------- classification
 
 func (r *rw) site(pos token.Pos) string {
-	return fmt.Sprintf("%s:%d", r.fname, r.fset.Position(pos).Line)
+	return fmt.Sprintf("%s:%d@%s", r.fname, r.fset.Position(pos).Line, r.curFunc)
 }
 
 // trackedField returns the key of a selector naming a field of a struct type declared in this package.
